@@ -55,6 +55,8 @@ Next ==
      \/ /\ WithFill /\ NoHold /\ \E p \in Files : IsFile(p) /\ Len(tree[p].data) <= MaxLen
            /\ Go(TRUE, FillT(p, FillCap(p), tag)) /\ Log([a |-> "Fill", p |-> p, tag |-> tag]) /\ tag' = tag + 1 /\ UNCHANGED held
      \/ /\ Neg /\ ~Exists("b") /\ Go(FALSE, tree) /\ Log([a |-> "WriteAt", p |-> "b", off |-> 0, len |-> 1, tag |-> tag, held |-> FALSE]) /\ tag' = tag + 1 /\ UNCHANGED held
+     \* a truncating open aimed at a DIRECTORY: whatever the answer, nothing changes
+     \/ /\ Neg /\ \E p \in Dirs : Exists(p) /\ Go(FALSE, tree) /\ Log([a |-> "TruncDir", p |-> p]) /\ UNCHANGED <<tag, held>>
      \* a write handle is asked for on a DIRECTORY: refused, nothing changes (the directory stays a directory)
      \/ /\ Neg /\ \E p \in Dirs, w \in {"WriteAt", "Append"} : Exists(p) /\ Go(FALSE, tree)
            /\ Log([a |-> w, p |-> p, off |-> 0, len |-> 1, tag |-> tag, held |-> FALSE]) /\ tag' = tag + 1 /\ UNCHANGED held
